@@ -586,3 +586,18 @@ mod tests {
         assert!(iter.next().is_none());
     }
 }
+
+#[cfg(litep2p_verif)]
+impl RoutingTable {
+    /// Contents of every non-empty bucket, in stored order (verification hook).
+    pub fn verif_buckets(&self) -> Vec<(usize, Vec<KademliaPeer>)> {
+        self.buckets
+            .iter()
+            .enumerate()
+            .filter_map(|(i, b)| {
+                let nodes = b.verif_nodes();
+                (!nodes.is_empty()).then(|| (i, nodes))
+            })
+            .collect()
+    }
+}
